@@ -112,7 +112,10 @@ class World:
         _, ri, sid, l0, p = letter
         self.uid += 1
         pt = b"pt-%06d-" % self.uid + self.rng.randbytes(6)
-        return online.ref_blob(self.rng, self.rkids[ri], self.rks[ri], sid, (l0,) + p, "nonce", pt, in_envelope=bool(self.uid % 2)), pt
+        # every third blob was made in public-key mode (ephemeral key in the key identifier): for a caller the DC gives seed
+        # keys to, that changes nothing about what is fetched, cached and covered
+        mode = "public" if self.uid % 3 == 0 else "nonce"
+        return online.ref_blob(self.rng, self.rkids[ri], self.rks[ri], sid, (l0,) + p, mode, pt, in_envelope=bool(self.uid % 2)), pt
 
 
 class Model:
